@@ -604,11 +604,14 @@ def multiset_key(res: V) -> Any:
 # TypedDict merging (shrink_typed_dict_types) over exhaustively enumerated small shapes
 # ---------------------------------------------------------------------------
 
-def td(idx: int, shape: Dict[str, str]) -> R:
+def td(idx: int, shape: Dict[str, str], same: bool = False) -> R:
     """An anonymous TypedDict whose fields are given as name -> 'r' (required) | 'o' (optional);
-    value types are distinct symbolic tokens."""
-    req = tuple((K(k), S(f"T{idx}.{k}")) for k, st_ in shape.items() if st_ == "r")
-    opt = tuple((K(k), S(f"T{idx}.{k}")) for k, st_ in shape.items() if st_ == "o")
+    value types are distinct symbolic tokens - or, with `same`, one token per KEY shared by all the TypedDicts (every dict
+    seen at the position holds the same type under that key: the common case, and the one in which two TypedDicts can be
+    EQUAL in their required part and still differ in their optional part)."""
+    tok = (lambda k: S(f"V.{k}")) if same else (lambda k: S(f"T{idx}.{k}"))
+    req = tuple((K(k), tok(k)) for k, st_ in shape.items() if st_ == "r")
+    opt = tuple((K(k), tok(k)) for k, st_ in shape.items() if st_ == "o")
     return R("anon_td", id=K(idx), required=R("dict", items=req), optional=R("dict", items=opt))
 
 
